@@ -1229,6 +1229,7 @@ func msetCase(run *hx.Run, idx int, r *hx.Rand) {
 	}()
 	n := 2 + r.Intn(4)
 	mods := make([]gmod, n)
+	vendorsWKT := r.Chance(1, 3)
 	for i := range mods {
 		m := &mods[i]
 		m.local = i == n-1 || r.Chance(3, 4)
@@ -1241,6 +1242,12 @@ func msetCase(run *hx.Run, idx int, r *hx.Rand) {
 			}
 			var imports []string
 			for _, j := range m.direct {
+				// module 0 may vendor a well-known-type file: a dependency reached ONLY through
+				// that path is still a dependency (the workspace copy wins over the built-in one)
+				if j == 0 && vendorsWKT && r.Chance(1, 2) {
+					imports = append(imports, "google/protobuf/timestamp.proto")
+					continue
+				}
 				imports = append(imports, "pkg"+strconv.Itoa(j)+"/f.proto")
 			}
 			m.files = []file{{pkg + "/f.proto", protoText(r, pkg, imports)}}
@@ -1252,6 +1259,9 @@ func msetCase(run *hx.Run, idx int, r *hx.Rand) {
 			for k, c := 0, r.Intn(3); k < c; k++ {
 				m.pinned = append(m.pinned, "b5:"+hex.EncodeToString(randDigestBytes(r)))
 			}
+		}
+		if i == 0 && vendorsWKT {
+			m.files = append(m.files, file{"google/protobuf/timestamp.proto", protoText(r, "google.protobuf", nil)})
 		}
 		if r.Chance(1, 3) {
 			m.files = append(m.files, file{"LICENSE", genContent(r, "L", false)})
